@@ -217,6 +217,7 @@ private:
     bool cached=false;
     if(((intptr_t)(components+dim%2))%32 == 0) //only try to save aligned storage
       cached=storage_cache[dim].insert(mem_cache_entry{components,ptr_offset});
+    SQUIDS_VERIF_EVENT(cached?"heap.cached":"heap.deleted",components-ptr_offset,components,dim,ptr_offset);
     if(!cached)
 #endif
       delete[] (components-ptr_offset);
@@ -235,6 +236,7 @@ private:
     if(cache_result.storage){
       components=cache_result.storage;
       ptr_offset=cache_result.offset;
+      SQUIDS_VERIF_EVENT("heap.hit",components-ptr_offset,components,dim,ptr_offset);
     }
     else{
 #endif
@@ -248,6 +250,7 @@ private:
         components+=ptr_offset;
       }
       assert((intptr_t)(components+before)%32 == 0);
+      SQUIDS_VERIF_EVENT("heap.fresh",components-ptr_offset,components,dim,ptr_offset);
 #if SQUIDS_USE_STORAGE_CACHE
     }
 #endif
@@ -784,6 +787,10 @@ public:
   friend struct detail::BinaryElementwiseOpProxy;
 
   friend struct detail::SU_vector_operator_access;
+#ifdef SQUIDS_VERIF
+  ///read-only access to the private fields for verification harnesses
+  friend struct detail::verif_access;
+#endif
 
   //overloaded output operator
   friend std::ostream& operator<<(std::ostream&, const SU_vector&);
@@ -798,6 +805,8 @@ public:
       while(true){
         cache_result=storage_cache[dim].get();
         if(cache_result.storage)
+          SQUIDS_VERIF_EVENT("heap.drained",cache_result.storage-cache_result.offset,cache_result.storage,dim,cache_result.offset);
+        if(cache_result.storage)
           delete[] (cache_result.storage-cache_result.offset);
         else
           break;
@@ -808,6 +817,16 @@ public:
 };
 
 namespace detail{
+#ifdef SQUIDS_VERIF
+struct verif_access{
+  static unsigned int dim(const SU_vector& v){ return v.dim; }
+  static unsigned int size(const SU_vector& v){ return v.size; }
+  static const double* components(const SU_vector& v){ return v.components; }
+  static unsigned char ptr_offset(const SU_vector& v){ return v.ptr_offset; }
+  static bool isinit(const SU_vector& v){ return v.isinit; }
+  static bool isinit_d(const SU_vector& v){ return v.isinit_d; }
+};
+#endif
 //a helper class which gives externally defined operators access to the internals of SU_vector
 struct SU_vector_operator_access{
   struct view{
